@@ -648,6 +648,17 @@ theorem isSlashable_eq_spec (sl : Bool) (a w e : UInt64) :
   cases sl <;> simp [UInt64.lt_iff_toNat_lt, UInt64.le_iff_toNat_le]
   by_cases h1 : e.toNat < a.toNat <;> by_cases h2 : w.toNat ≤ e.toNat <;> simp [h1, h2] <;> omega
 
+/-- the model's `isSlashable` IS the code: `phase0.IsSlashable`, regenerated from the Go source on every run
+(`Zrnt.Gen.GoFuns.IsSlashable`), returns exactly it on every validator record and epoch, and never fails -/
+theorem isSlashable_eq_regenerated (v : Zrnt.Gen.GoFuns.ValidatorRec) (e : UInt64) :
+    Zrnt.Gen.GoFuns.IsSlashable v e = .ok (isSlashable v.Slashed v.ActivationEpoch v.WithdrawableEpoch e) := by
+  unfold Zrnt.Gen.GoFuns.IsSlashable isSlashable
+  cases hs : v.Slashed
+  · by_cases h1 : v.ActivationEpoch > e
+    · simp [h1]
+    · by_cases h2 : v.WithdrawableEpoch ≤ e <;> simp [h1, h2]
+  · simp
+
 theorem pslashShapeOk_iff (i : PSlashIn) : pslashShapeOk i = true ↔
     (i.slot1.toNat = i.slot2.toNat ∧ i.prop1.toNat = i.prop2.toNat ∧ i.headersEqual = false) := by
   fun_cases pslashShapeOk i
